@@ -541,6 +541,10 @@ class DestHandler:
         if self.states.step == TransactionStep.RECV_FILE_DATA_WITH_CHECK_LIMIT_HANDLING:
             self._check_limit_handling()
         if self.states.step == TransactionStep.WAITING_FOR_MISSING_DATA:
+            if packet is not None and pdu_holder.pdu_directive_type == DirectiveType.EOF_PDU:
+                # CFDP 4.7.2: Every EOF PDU must be acknowledged. The sender re-sends the EOF PDU if
+                # the first ACK (EOF) PDU was lost.
+                self._prepare_eof_ack_packet()
             if packet is not None and pdu_holder.pdu_type == PduType.FILE_DATA:
                 self._handle_fd_pdu(pdu_holder.to_file_data_pdu())
                 if self._params.acked_params.deferred_lost_segment_detection_active:
@@ -785,6 +789,14 @@ class DestHandler:
 
     def _handle_waiting_for_finished_ack(self, packet_holder: PduHolder) -> None:
         """Returns False if the FSM should be called again."""
+        if (
+            packet_holder.pdu is not None
+            and packet_holder.pdu_directive_type == DirectiveType.EOF_PDU
+        ):
+            # CFDP 4.7.2: Every EOF PDU must be acknowledged. The sender re-sends the EOF PDU if
+            # the first ACK (EOF) PDU was lost, and ignores the Finished PDU until then.
+            self._prepare_eof_ack_packet()
+            return
         if (
             packet_holder.pdu is None
             or packet_holder.pdu_type == PduType.FILE_DATA
